@@ -52,6 +52,7 @@ from spyne.model.binary import binary_decoding_handlers, BINARY_ENCODING_USE_DEF
 from spyne.util import six
 from spyne.model.enum import EnumBase
 from spyne.model.primitive.datetime import TIME_PATTERN, DATE_PATTERN
+from spyne.model.primitive.number import significant_str_len
 
 from spyne.util.cdict import cdict
 
@@ -364,8 +365,8 @@ class InProtocolBase(ProtocolMixin):
 
     def decimal_from_unicode(self, cls, string):
         cls_attrs = self.get_cls_attrs(cls)
-        if cls_attrs.max_str_len is not None and len(string) > \
-                                                     cls_attrs.max_str_len:
+        if cls_attrs.max_str_len is not None and \
+                      significant_str_len(string) > cls_attrs.max_str_len:
             raise ValidationError(string, "Decimal %%r longer than %d "
                                           "characters" % cls_attrs.max_str_len)
 
@@ -389,7 +390,7 @@ class InProtocolBase(ProtocolMixin):
 
         if isinstance(string, (six.text_type, six.binary_type)) and \
                                     cls_attrs.max_str_len is not None and \
-                                    len(string) > cls_attrs.max_str_len:
+                     significant_str_len(string) > cls_attrs.max_str_len:
             raise ValidationError(string,
                                          "Integer %%r longer than %d characters"
                                                         % cls_attrs.max_str_len)
